@@ -274,6 +274,10 @@ def run_case(run: Run, spec, tmp):
     # ---- payload
     writes = [[n, world.tok.read(t)] for n, t in self1] if cls == "inplace" else []
     rl, res_alias_ok = result_payload(world, prov, [m for m, _ in self0], res_leaves, n0, cls)
+    # provenance by value needs distinct cell values: entries that cannot have them (bool, or equal values in distinct cells)
+    # are judged by the oracle (storage identity) only; their windows are not compared with the model
+    amb_src = {n for n, (sid, offs), reads in descs[0] if len(set(reads)) < len(set(offs))}
+    amb = {r_[0] for r_ in rl if (r_[1] in amb_src) or (r_[1] is None and r_[3] and any(tt.dtype == torch.bool for nn_, tt in res_leaves if nn_ == r_[0]))}
     struct = []
     struct_ok = True
     if cls == "rebind":
@@ -349,7 +353,7 @@ def run_case(run: Run, spec, tmp):
     #      container must still address the container's own tensors): expected values by torch on the handles held before
     posted = False
     post_verdict = None
-    if post and not chain and cls in ("outOfPlace", "copy", "view", "contiguous") and keys0 == keys1:
+    if post and not chain and cls in ("outOfPlace", "copy", "view", "contiguous") and keys0 == keys1 and all(t.dtype == P.DT for _, t in self0):
         hmap = dict(self0)
         omap = dict(P.leaves_of(post_other)) if post_other is not None else {}
         fl = [(n, t) for n, t in self0 if t.dtype == P.DT]
@@ -592,7 +596,7 @@ def run_case(run: Run, spec, tmp):
                 verdicts.append(f"contiguous(): entry {n} contiguous={s.is_contiguous()} but shares={same}")
     req = sx("c07.run", init, ["steps"] + steps)
     meta = {"case": case, "status": "ok", "verdicts": verdicts, "n_pokes": len(pokes), "chained": chained, "second": second, "posted": posted, "deviation": row in run.deviations, "struct_ok": struct_ok,
-            "n_self": len(self0), "n_res": len(res_leaves), "alias_ok": all(res_alias_ok.values()) if res_alias_ok else True}
+            "amb": sorted(amb) if (amb or amb_src) else [], "amb_src": bool(amb_src), "n_self": len(self0), "n_res": len(res_leaves), "alias_ok": all(res_alias_ok.values()) if res_alias_ok else True}
     return req, real_states, meta
 
 
@@ -887,6 +891,72 @@ def subwindow_stream(run, drv):
         run.corr("subwindow(write-through)", case, e, model)
 
 
+
+def update_stream(run, drv):
+    """td.update_(src) for sources whose key set is a subset of / overlaps / is disjoint from the destination's (nested keys
+    included), locked or not: outcome (values read through the handles held before, or KeyError) vs Model `updateInplace`"""
+    from tensordict import TensorDict
+    rng = run.rng
+    n = 120 if run.tier == "quick" else 1200
+    reqs, exps, cases = [], [], []
+    for it in range(n):
+        cnt = P.Counter()
+        layout = rng.choice(["contiguous", "strided", "offset"])
+        td = TensorDict({"a": P.make_leaf((2, 3), layout, cnt), "b": P.make_leaf((2, 3, 2), layout, cnt),
+                         "n": TensorDict({"x": P.make_leaf((2, 3), layout, cnt)}, batch_size=[2, 3])}, batch_size=[2, 3])
+        if rng.random() < 0.4:
+            td.lock_()
+        shapes = {"a": (2, 3), "b": (2, 3, 2), "n.x": (2, 3), "zz": (2, 3), "n.y": (2, 3)}
+        ks = rng.sample(["a", "b", "n.x", "zz", "n.y"], rng.randint(0, 4))
+        src = {}
+        for k in ks:
+            v = cnt.take(P._numel(shapes[k])).reshape(shapes[k]) + 0.5
+            if "." in k:
+                src.setdefault("n", {})[k.split(".")[1]] = v
+            else:
+                src[k] = v
+        src_td = TensorDict(src, batch_size=[2, 3])
+        held = dict(P.leaves_of(td))
+        world = P.World()
+        names = list(held)
+        descs = {nm: (world.desc(held[nm]), world.tok.read(held[nm])) for nm in names}
+        n0 = len(world.sids)
+        store = [[] for _ in range(n0)]
+        for nm in names:
+            (sid, offs), reads = descs[nm]
+            cells = store[sid]
+            for o_, v_ in zip(offs, reads):
+                if o_ >= len(cells):
+                    cells.extend([0] * (o_ + 1 - len(cells)))
+                cells[o_] = v_
+        init = ["init", ["store"] + store, ["objs", ["obj"] + [[nm, descs[nm][0][0], descs[nm][0][1]] for nm in names]]]
+        srcl = [[nm, world.tok.read(t)] for nm, t in P.leaves_of(src_td)]
+        keys0 = sorted(map(str, td.keys(True, True)))
+        try:
+            with time_limit(10):
+                td.update_(src_td)
+            impl = ["ok", [[nm, world.tok.read(held[nm])] for nm in names]]
+        except KeyError:
+            impl = ["err", "key"]
+        except Exception as e:
+            run.count("update_.outcome", "raised:" + err_class(e))
+            continue
+        case = {"layout": layout, "locked": td.is_locked, "source_keys": sorted(ks)}
+        run.case(("update_", it, str(case)), nontrivial=bool(ks))
+        run.count("update_.outcome", impl[0])
+        if sorted(map(str, td.keys(True, True))) != keys0 or any(t is not held[nm] for nm, t in P.leaves_of(td)):
+            run.oracle_fail("update_", case, "update_ changed the key set or rebound an entry", fingerprint="update_rebound")
+        else:
+            run.oracle_ok("update_")
+        reqs.append(sx("c07.update_", init, srcl))
+        exps.append(impl)
+        cases.append(case)
+    for case, e, a in zip(cases, exps, ask_chunked(drv, reqs)):
+        a = parse_sx(a)
+        model = ["ok", [[str(l[0]), l[3]] for l in a[1][1][1:]]] if a[0] == "ok" else ["err", "key"]
+        run.corr("update_", case, e, model)
+
+
 def main():
     run = Run("C07")
     run.rule = ("every public operation of TensorDict (reflected) must have a row in the Lean class table; each row with a call recipe is executed on "
@@ -940,6 +1010,7 @@ def main():
     setstr_stream(run, drv)
     index_stream(run, drv)
     subwindow_stream(run, drv)
+    update_stream(run, drv)
 
     # 2. cases
     rng = run.rng
@@ -964,6 +1035,8 @@ def main():
             layout = rng.choice(P.LAYOUTS)
             pool = HIST_LOCKED if kind in P.LOCKED_KINDS else HIST_FREE
             hist = [rng.choice(pool) for _ in range(rng.choice([0, 0, 1, 2, 3, 4]))]
+            if layout == "dtypes":
+                hist = []      # provenance of the non-float64 entries rests on their initial (distinct) values
             if table.get(f"{op}%{kind}") == "excluded":
                 continue
             chain = rng.choice(CHAINS) if (table[op] in ("view", "copy", "contiguous") and rng.random() < 0.5) else None
@@ -1040,6 +1113,11 @@ def main():
             continue
         model_states = [[P.canon_model_obj(ob) for ob in st[1:]] for st in a[1:]]
         real = states
+        if meta.get("amb_src"):
+            # ambiguous provenance: drop the result objects' ambiguous entries on both sides (and later result objects entirely)
+            ambn = set(meta["amb"])
+            cut = lambda st: st[:3] + [[l for l in ob if l[0] not in ambn] for ob in st[3:4]]
+            model_states, real = [cut(st) for st in model_states[:1]], [cut(st) for st in real[:1]]   # later writes would go through the ambiguous windows
         comparable = True
         if cls == "rebind" and not meta["struct_ok"]:
             comparable = False
